@@ -169,6 +169,86 @@ def _dtype_word(e):
     return None
 
 
+_POS_CALLS = {'searchsorted', 'argsort', 'arange', 'nonzero', 'flatnonzero',
+              'argwhere', 'argmax', 'argmin', 'digitize', 'index', 'get_loc',
+              'get_indexer', 'lexsort', 'range', 'len', 'cumsum_positions'}
+
+
+def _is_position_expr(fn, e, depth=0, seen=None):
+    """`e` denotes positions (row / column numbers, offsets), not matrix
+    values: results of searchsorted / argsort / arange / nonzero / index,
+    the index arrays of a compressed matrix, look-ups in an
+    `{id: position}` dict built from enumerate, and arrays built from
+    those."""
+    seen = seen if seen is not None else set()
+    if depth > 6 or e is None:
+        return False
+    if isinstance(e, ast.Attribute):
+        if e.attr in ('indices', 'indptr', 'row', 'col'):
+            return True
+        return False
+    if isinstance(e, ast.Name):
+        if e.id in seen:
+            return True        # x = x.astype(...): decided by the other defs
+        seen.add(e.id)
+        defs = [n.value for n in ast.walk(fn) if isinstance(n, ast.Assign)
+                and any(isinstance(t, ast.Name) and t.id == e.id
+                        for t in n.targets)]
+        # loop / comprehension index of enumerate
+        for n in ast.walk(fn):
+            gens = []
+            if isinstance(n, ast.For):
+                gens = [(n.target, n.iter)]
+            elif isinstance(n, (ast.ListComp, ast.GeneratorExp, ast.SetComp,
+                                ast.DictComp)):
+                gens = [(g.target, g.iter) for g in n.generators]
+            for tgt, it in gens:
+                if isinstance(it, ast.Call) and call_name(it) == 'enumerate' \
+                        and isinstance(tgt, ast.Tuple) and tgt.elts and \
+                        isinstance(tgt.elts[0], ast.Name) and \
+                        tgt.elts[0].id == e.id:
+                    return True
+        return bool(defs) and all(_is_position_expr(fn, d, depth + 1, seen)
+                                  for d in defs)
+    if isinstance(e, ast.Call):
+        name = (call_name(e) or '').split('.')[-1]
+        if name in _POS_CALLS:
+            return True
+        if name in ('array', 'asarray', 'fromiter', 'list', 'tuple',
+                    'concatenate', 'hstack', 'repeat', 'tile') and e.args:
+            return _is_position_expr(fn, e.args[0], depth + 1, seen)
+        if name in ('astype', 'copy', 'ravel', 'flatten') and isinstance(
+                e.func, ast.Attribute):
+            return _is_position_expr(fn, e.func.value, depth + 1, seen)
+        return False
+    if isinstance(e, (ast.ListComp, ast.GeneratorExp)):
+        return _is_position_expr(fn, e.elt, depth + 1, seen)
+    if isinstance(e, (ast.List, ast.Tuple)):
+        return bool(e.elts) and all(_is_position_expr(fn, x, depth + 1, seen)
+                                    for x in e.elts)
+    if isinstance(e, ast.Subscript):
+        # look-up in an {id: position} dict built from enumerate
+        if isinstance(e.value, ast.Name):
+            for n in ast.walk(fn):
+                if isinstance(n, ast.Assign) and any(
+                        isinstance(t, ast.Name) and t.id == e.value.id
+                        for t in n.targets) and isinstance(
+                        n.value, ast.DictComp):
+                    g = n.value.generators[0]
+                    if isinstance(g.iter, ast.Call) and call_name(
+                            g.iter) == 'enumerate' and isinstance(
+                            g.target, ast.Tuple) and isinstance(
+                            n.value.value, ast.Name) and isinstance(
+                            g.target.elts[0], ast.Name) and \
+                            n.value.value.id == g.target.elts[0].id:
+                        return True
+        return _is_position_expr(fn, e.value, depth + 1, seen)
+    if isinstance(e, ast.BinOp):
+        return _is_position_expr(fn, e.left, depth + 1, seen) or \
+            _is_position_expr(fn, e.right, depth + 1, seen)
+    return False
+
+
 def rule_numloss(repo, col, roots=(), skip_files=()):
     rule = 'TA-NUMLOSS'
     fns = closure(repo, roots)
@@ -216,6 +296,12 @@ def rule_numloss(repo, col, roots=(), skip_files=()):
             if what is None:
                 continue
             n_sites += 1
+            if what.startswith('astype:') and isinstance(
+                    f, ast.Attribute) and not rel.endswith('.pyx') and \
+                    _is_position_expr(fn, f.value):
+                col.ok(rule, rel, q, what, n, 'an array of positions, not '
+                       'of matrix values')
+                continue
             key = (rel, q.split('.')[-1] if rel.endswith('.pyx') else q,
                    what)
             if key in NUMLOSS_ALLOWED:
